@@ -9,17 +9,18 @@ Open Scope Z_scope.
 Definition wf_fdesc (f : fdesc) : Prop :=
   wfk (fd_kind f) = true
   /\ (forall dv, fd_defi f = Some dv -> wtb (fd_kind f) dv = true)
-  /\ (tracked f = true -> match fd_kind f with KInt _ | KUint _ | KTime => True | _ => False end).
+  /\ (tracked f = true -> match fd_kind f with KInt _ | KUint _ | KTime | KPtr KTime => True | _ => False end).
 
 (* a field value: well typed (or a leaf under a nil embedded pointer), zero values canonical *)
 Definition wf_val (k : kind) (v : goval) : Prop :=
   (v = GAbsent \/ wtb k v = true) /\ (is_zero k v = true -> norm k v = zero k).
 
 Lemma now_val_wt : forall f now,
-  match fd_kind f with KInt _ | KUint _ | KTime => True | _ => False end ->
+  match fd_kind f with KInt _ | KUint _ | KTime | KPtr KTime => True | _ => False end ->
   wtb (fd_kind f) (now_val f now) = true.
 Proof.
-  intros f now H. unfold now_val. destruct (fd_kind f); try contradiction; cbn.
+  intros f now H. unfold now_val. destruct (fd_kind f) as [ | | | | | | |k'| | | ]; try contradiction; cbn;
+    try (destruct k'; try contradiction; reflexivity).
   - destruct ((fd_ctime f =? 4) || (fd_utime f =? 4)); [reflexivity|].
     destruct ((fd_ctime f =? 3) || (fd_utime f =? 3)); reflexivity.
   - destruct ((fd_ctime f =? 4) || (fd_utime f =? 4)); [reflexivity|].
